@@ -19,8 +19,10 @@ import (
 // and every K = 0, 1, 2, ... the statement runs under a context whose Err() reports Canceled from its K-th call
 // on, until a K is reached at which the statement completes.
 func init() {
-	core.Extend("C08", "family cancel: 17 data-changing statements (every kind, file tables of 40 and 10 records, a temporary table) x cancellation becoming visible at the K-th poll of the context for every K until the statement completes; "+
-		"the transaction holds earlier uncommitted changes of all three tables; after a cancelled statement (and some further evaluation) every table reads as before it, and a COMMIT writes exactly the earlier changes", c08CancelRun)
+	core.Extend("C08", "family cancel: 48 data-changing statements and programs (every kind; file tables of 40, 10 and 330 records, temporary tables of 20 and 330; sub-queries, joins, sorting, grouping, user functions; "+
+		"statements inside IF / WHILE / WHILE IN blocks and a user function) x cancellation becoming visible at the K-th poll of the context for every K until the statement completes (CPU flag 1: fixed order of polls; the 330-record statements also with csvq's default); "+
+		"the transaction holds earlier uncommitted changes of all five tables; after a cancelled statement (and some further evaluation) every table reads well formed and as before it, and a COMMIT writes exactly the earlier changes; "+
+		"after a cancelled program with control flow the tables are in the state after 0..n whole statements of it and COMMIT writes that state", c08CancelRun)
 }
 
 type c08PollCtx struct {
@@ -287,10 +289,12 @@ func c08IsCancelled(err error) bool {
 	if err == nil {
 		return false
 	}
-	if _, ok := err.(*query.ContextCanceled); ok {
+	switch err.(type) {
+	case *query.ContextCanceled, *query.ContextDone:
 		return true
 	}
-	return strings.Contains(err.Error(), context.Canceled.Error())
+	// "[Context] context canceled" from the engine, "[Context] execution canceled" from the file layer
+	return strings.HasPrefix(err.Error(), "[Context] ")
 }
 
 // c08CancelOne runs one (statement, K); it returns false when no further K is to be tried (the statement completed,
@@ -332,12 +336,19 @@ func c08CancelOne(c *core.Ctx, dir string, prog *c08CancelProg, k int64, cpu int
 		return true, calls
 	}
 	if r.Err == nil {
+		if len(prog.Steps) > 0 {
+			// the program ran to its end: the tables have to be in the last state of the reference, or Steps does not
+			// describe the program (a mistake of this file, nothing about csvq)
+			if done, err := c08ReadKey(env); err != nil || done != states[len(states)-1].key {
+				c.Incomplete("cancel family: the Steps given for " + sql + " do not lead to the state the completed program leaves")
+			}
+		}
 		return false, calls // completed before (or without) noticing the cancellation
 	}
 	c.Eval(fmt.Sprintf("cancel|%s|%d|%d", sql, k, cpu), true)
 	more = true
 	if !c08IsCancelled(r.Err) {
-		c.Observe("cancel_family_other_errors", r.Err.Error())
+		c.Observe("cancel_family_other_errors", strings.ReplaceAll(r.Err.Error(), dir, "<dir>"))
 		more = false // refused whatever the context says; still a failed statement, looked at below
 	}
 	env.Exec(c08Churn)
